@@ -25,8 +25,8 @@ that parsed (`Frame` = its attributes + its `next`).  Frames shorter than 14 byt
 the attribute updates `hdr` makes (`iplen`, `csum`, `len`, `off`) are dropped, because no handler and no `hdr` reads them
 (C14 `ipv4Hdr_idem`, `udpHdr_idem`, `tcpHdr_idem`, `icmpHdr_idem`).
 
-Not modelled (assumed by the harness): the packet-buffer pool never fills (`max_buffers` ≥ number of packet-ins of a
-run; the pool is C18), so `send_packet_in` always truncates to `max_len` / `miss_send_len`; flow-table lookup is reduced
+The packet-buffer pool is reduced to the number of free buffers (`Sw.bufFree`, `settle`; ids and release are C18).
+Not modelled: flow-table lookup is reduced
 to rules that match on the ingress port or on everything (matching itself is C03); flow/table counters.
 -/
 namespace Pox.Actions
@@ -207,12 +207,18 @@ structure Sw where
   missLen : Nat := 128
   /-- flow table, highest priority first -/
   table : List Rule := []
+  /-- packet buffers still free: `max_buffers - len(_packet_buffer)` (C12's operations never release one; the pool
+  itself is C18's subject) -/
+  bufFree : Nat := 4096
   deriving DecidableEq, Repr
 
 inductive Out where
   /-- `DpPacketOut(port, packet)`, the packet serialised at event time -/
   | frame (port : Nat) (data : Bytes)
-  | packetIn (inPort reason : Nat) (data : Bytes) (total : Nat)
+  /-- `ofp_packet_in`: `data` is the whole serialised packet (`total_len` = its length), `dataLength` the `max_len` /
+  `miss_send_len` that applies, `buffered` whether `_buffer_packet` found room (a buffer id is sent and the data is cut to
+  `dataLength`) — see `pinData` -/
+  | packetIn (inPort reason : Nat) (data : Bytes) (dataLength : Option Nat) (buffered : Bool)
   /-- `ofp_error(type, code)` -/
   | error (type code : Nat)
   | portStatus (port : Nat) (config state : Nat)
@@ -235,11 +241,17 @@ def packFrame (f : Frame) : M Bytes :=
   | .ok b => .ok b
   | .error e => .error (.pack e)
 
-/-- `send_packet_in` (switch.py:418-438) with a buffer available: `data_length = none` sends everything -/
+/-- `send_packet_in` (switch.py:418-438) as requested by the data path; whether a buffer is available is settled by
+`settle` at the end of the operation -/
 def packetInOf (inPort reason : Nat) (data : Bytes) (dataLength : Option Nat) : Out :=
+  .packetIn inPort reason data dataLength true
+
+/-- the `data` field of the packet-in on the wire: `if data_length is not None and len(packet) > data_length:
+if buffer_id is not None: packet = packet[:data_length]` -/
+def pinData (data : Bytes) (dataLength : Option Nat) (buffered : Bool) : Bytes :=
   match dataLength with
-  | some n => .packetIn inPort reason (if data.length > n then data.take n else data) data.length
-  | none => .packetIn inPort reason data data.length
+  | some n => if buffered && data.length > n then data.take n else data
+  | none => data
 
 /-! ## `_output_packet` -/
 
@@ -392,18 +404,42 @@ def dropFrame (r : M (Sw × Frame × List Out)) : M (Sw × List Out) :=
   | .ok (sw, _, o) => .ok (sw, o)
   | .error e => .error e
 
+/-- `_buffer_packet` (switch.py:702-719) for the packet-ins of one operation, in order: each takes a buffer while one is
+free (`buffered = true`: buffer id sent, data cut), afterwards none (`buffer_id = None`, whole packet sent).  Nothing in
+the data path reads the pool, so the outcome only shapes the packet-in being built and can be settled when the operation
+has run. -/
+def settle : Nat → List Out → Nat × List Out
+  | free, [] => (free, [])
+  | free, .packetIn p r d dl _ :: rest => ((settle (free - 1) rest).1, .packetIn p r d dl (decide (0 < free)) :: (settle (free - 1) rest).2)
+  | free, o :: rest => ((settle free rest).1, o :: (settle free rest).2)
+
+def finish (free : Nat) (r : M (Sw × List Out)) : M (Sw × List Out) :=
+  match r with
+  | .ok (sw, o) => .ok ({ sw with bufFree := (settle free o).1 }, (settle free o).2)
+  | .error e => .error e
+
+/-- `rx_packet(packet, in_port, packet_data)` for a frame from the wire, buffers not yet settled -/
+def rxWireCore (var : Variant) (sw : Sw) (f : Frame) (inPort : Nat) (wire : Bytes) : M (Sw × List Out) :=
+  dropFrame (rxThen (fun sw f inPort pd => lookupPacket (run var depth) sw f inPort pd) sw f inPort (some wire))
+
 /-- `rx_packet(packet, in_port, packet_data)` for a frame from the wire -/
 def rxWire (var : Variant) (sw : Sw) (f : Frame) (inPort : Nat) (wire : Bytes) : M (Sw × List Out) :=
-  dropFrame (rxThen (fun sw f inPort pd => lookupPacket (run var depth) sw f inPort pd) sw f inPort (some wire))
+  finish sw.bufFree (rxWireCore var sw f inPort wire)
 
 /-- `rx_packet(packet, in_port)` called with a packet object only (no `packet_data`): the receive byte counter and a
 table-miss packet-in then use `packet.pack()` (switch.py:512-513, 537-538) -/
-def rxObj (var : Variant) (sw : Sw) (f : Frame) (inPort : Nat) : M (Sw × List Out) :=
+def rxObjCore (var : Variant) (sw : Sw) (f : Frame) (inPort : Nat) : M (Sw × List Out) :=
   dropFrame (rxThen (fun sw f inPort pd => lookupPacket (run var depth) sw f inPort pd) sw f inPort none)
 
+def rxObj (var : Variant) (sw : Sw) (f : Frame) (inPort : Nat) : M (Sw × List Out) :=
+  finish sw.bufFree (rxObjCore var sw f inPort)
+
 /-- `_rx_packet_out` with `data`: `_process_actions_for_packet(actions, ethernet.unpack(data), in_port)` -/
-def packetOut (var : Variant) (sw : Sw) (acts : List Action) (f : Frame) (inPort : Nat) : M (Sw × List Out) :=
+def packetOutCore (var : Variant) (sw : Sw) (acts : List Action) (f : Frame) (inPort : Nat) : M (Sw × List Out) :=
   dropFrame (run var (depth + 1) sw acts f inPort)
+
+def packetOut (var : Variant) (sw : Sw) (acts : List Action) (f : Frame) (inPort : Nat) : M (Sw × List Out) :=
+  finish sw.bufFree (packetOutCore var sw acts f inPort)
 
 /-! ## port-mod -/
 
